@@ -72,6 +72,28 @@ pub fn concat(ctx: &mut Ctx) {
             }
         }
     }
+    // deterministic witness of the known finding C13-archive-level-chunk: an unknown ancillary chunk between the last entry and the
+    // end marker (a foreign writer's archive-level metadata) is dropped by the raw copy
+    {
+        let sbx = Sbx::new("concat-w", 1);
+        let mut v = crate::gen::SIG.to_vec();
+        v.extend(crate::gen::frame(b"AHED", &[0; 8]));
+        v.extend(crate::gen::frame(b"FHED", &[0, 0, 0, 0, 0, 0, b'a']));
+        v.extend(crate::gen::frame(b"FDAT", b"x"));
+        v.extend(crate::gen::frame(b"FEND", &[]));
+        v.extend(crate::gen::frame(b"myTy", b"archive-level"));
+        v.extend(crate::gen::frame(b"AEND", &[]));
+        std::fs::write(sbx.path("in.pna"), &v).unwrap();
+        let r = run_pna(&sbx, &sbx.root, &["--quiet", "concat", "out.pna", "in.pna"], None, 60, &[]);
+        ctx.oracle_eval();
+        if r.ok() {
+            let out = std::fs::read(sbx.path("out.pna")).unwrap_or_default();
+            let kept = refdec::chunks(&out).map(|(cs, _)| cs.iter().any(|(t, _)| t == b"myTy")).unwrap_or(false);
+            if !kept {
+                ctx.violation("C13", "pna concat silently dropped an unknown chunk that stands between the last entry and the end marker", json!({"witness":"archive-level-chunk","in_len":v.len(),"out_len":out.len()}));
+            }
+        }
+    }
     let n = if ctx.thorough { 150 } else { 30 };
     for case in 0..n {
         let sbx = Sbx::new("concat", case);
